@@ -125,8 +125,18 @@ class Checker(C.BaseChecker):
             else:
                 self.ok()
 
-        # ---- (1) what is attached (raw tree) == model -----------------------------------------------
+        # ---- antecedent: exactness is relative to TocInv (DESIGN C07: "supplied by C06") ---------------------
         S = st.scan
+        broken = C.toc_inv_raw(S)
+        if broken:
+            # the raw tree is out of sync (C06 reports that, with the operation that broke it); retrieval/query exactness
+            # is not judged on such a state
+            self.skipped_tocinv = getattr(self, "skipped_tocinv", 0) + 1
+            if self.skipped_tocinv == 1:
+                rec.notes.append(f"state violates TocInv ({broken[0][0]}: {broken[0][1][:160]}) after {st.kind} {json.dumps(st.history)[:300]}: C07 is relative to TocInv (C06's finding), not judged on such states")
+            return
+
+        # ---- (1) what is attached (raw tree) == model -----------------------------------------------
         raw_att = {p: d for p, d in C.attached_of_scan(S).items() if p not in S.get("stray_nodes", {})}  # junk below reserved names: C08/C06
         exp_att = model.attached()
         copied = set(st.created_by_copy or ())
@@ -374,7 +384,7 @@ class Checker(C.BaseChecker):
 
 
 RULE = (
-    "same histories as C06 (scripted sweep over every schema x instance; exhaustive bounded searches over three pruned alphabets; seeded random walks; "
+    "same histories as C06 (scripted sweep over every schema x instance; exhaustive bounded searches over the three pruned alphabets toggle/tree/general of the C06 driver; seeded random walks; "
     "h5py.File and IH5Record); after every operation (also failed ones and reopen) every node's attached objects are read back by own schema "
     "(name+version, class, name) and by every non-auxiliary ancestor, and node.meta.query / in / container- and group-level metador.query are compared with a "
     "brute-force scan of the harness model for all start nodes x all (schema, version) arguments (attached names, their ancestors, each with no version, "
